@@ -56,7 +56,7 @@ Print Assumptions C06_sig_threshold.
 Theorem C06_success_example :
   NoDup (map sg_node (c_signers Witness.cfg)) /\
   exists log, run Witness.edv Witness.vrs fixed Witness.cfg Witness.sc Witness.good_run
-              = GFinal (Success [1101; 1201]%N [(mkLaneReq 5 35 10 20, 105)]%N) log.
+              = GFinal (Success [1101; 1201]%N [(mkLaneReq 5 w_onr32 10 20, 105)]%N) log.
 Proof. exact Witness.good_run_succeeds. Qed.
 Print Assumptions C06_success_example.
 
@@ -181,6 +181,29 @@ Theorem C06_sort_panic_unfixed_refuted :
 Proof. exact sort_panic_unfixed_refuted. Qed.
 Print Assumptions C06_sort_panic_unfixed_refuted.
 
+(* The lane source of a counted observation is EXACTLY the requested lane.  The on-ramp address is modelled as the byte
+   string it is (Model/Rmn.v [addr], [keep_right] = typconv.KeepNRightBytes): a lane update is let through only if its
+   selector is the requested one and its on-ramp address is byte-equal to the last 20 bytes of the requested address
+   (the whole address if that has at most 20 bytes) — so it has exactly that length: a shorter tail (empty, 1 byte, 19
+   bytes), a prefix, or a longer string with the same tail (the 32-byte abi-encoded form, 21 bytes) names another lane
+   and is rejected.  ([vote_evidence] in the threshold theorems above carries the same equation.) *)
+Theorem C06_lane_source_exact : forall n us lus seen votes,
+  validate_lus fixed n us seen lus = Ok votes ->
+  forall ch rv, In (ch, rv) votes ->
+  exists lu u, In lu lus /\ find_upd ch us = Some u /\
+    lu_src lu = Some (ch, keep_right 20 (lr_onramp (u_req u))) /\
+    forall o, lu_src lu = Some (ch, o) -> fst o = N.min (fst (lr_onramp (u_req u))) 20.
+Proof. exact lane_source_exact. Qed.
+Print Assumptions C06_lane_source_exact.
+
+Theorem C06_lane_source_example :
+  keep_right 20 w_onr32 = w_onr20 /\
+  validate_lus fixed 1%N Witness.us1 [] [Witness.lu_with w_onr20] = Ok [(5%N, R32 105%N)] /\
+  forall o, In o [(1, [(0, 35)]); (19, [(0, 35)]); (0, []); (19, [(18, 17)]); w_onr32; (21, [(0, 35); (19, 17)])]%N ->
+    validate_lus fixed 1%N Witness.us1 [] [Witness.lu_with o] = Err.
+Proof. exact Witness.onramp_rule_examples. Qed.
+Print Assumptions C06_lane_source_example.
+
 (* ---------- histories: a SEQUENCE of calls on one long-lived controller (Model/RmnHist.v) ----------
    [hrun] is the multi-call machine: an event is either a new ComputeReportSignatures call — with the configuration
    that RMNHome / RMNRemote / the plugin present at THAT moment and Go's random choices for that call — or an event of
@@ -258,11 +281,11 @@ Theorem C06_history_example :
   (forall i j, HistWitness.gid i = HistWitness.gid j -> i = j) /\
   (exists log,
      hresults (hrun Witness.edv Witness.vrs fixed HistWitness.gid (flatten HistWitness.two_calls)) =
-     [(0%nat, GFinal (Success [1101; 1201]%N [(mkLaneReq 5 35 10 20, 105)]%N) log);
+     [(0%nat, GFinal (Success [1101; 1201]%N [(mkLaneReq 5 w_onr32 10 20, 105)]%N) log);
       (4%nat, GFinal (Failure FNothingToDo) [])]) /\
   (exists log us s,
      hresults (hrun Witness.edv Witness.vrs fixed HistWitness.gid (flatten HistWitness.replayed)) =
-     [(0%nat, GFinal (Success [1101; 1201]%N [(mkLaneReq 5 35 10 20, 105)]%N) log); (4%nat, GA us s)] /\
+     [(0%nat, GFinal (Success [1101; 1201]%N [(mkLaneReq 5 w_onr32 10 20, 105)]%N) log); (4%nat, GA us s)] /\
      a_acc s = [] /\ filter (not_leftover HistWitness.gid 4) Witness.good_run = []).
 Proof.
   split; [exact HistWitness.gid_injective|].
